@@ -1336,6 +1336,18 @@ pub fn generate(prop: &str, rng: &mut Rng, plan: &mut Plan, index: u64) {
                     // two spawns: the fault hits the second while the first is alive
                     f.fdalloc = Some((1 + crng.range(4, 12) as u32, libc::EMFILE));
                 }
+                // a signal handler runs while the parent waits for the launch status (or, with a
+                // failing launch, for the child): the launch must neither fail nor lose the child
+                60 => f.eintr = Some((1, 1, 2)),
+                61 => {
+                    f.eintr = Some((1, 2, 6));
+                    spec.argv[0] = b"/bin/missing".to_vec();
+                }
+                62 => f.eintr = Some((1, 1 + crng.below(3) as u32, 7)),
+                63 => {
+                    f.eintr = Some((1, 1, 2));
+                    spec.detached = true;
+                }
                 _ => {
                     f.fdalloc = Some((crng.range(1, 9) as u32, libc::EMFILE));
                     spec.detached = true;
